@@ -1924,6 +1924,11 @@ class MatlabWrapper(CheckMixin, FormatMixin):
             if isinstance(element, parser.Namespace):
                 first = first_blocks.get(element.name)
                 if first is not None:
+                    for moved in element.content:
+                        # Lookups in "the namespace of this class" (e.g. for
+                        # its enums) go through `parent`.
+                        if hasattr(moved, 'parent'):
+                            moved.parent = first
                     first.content.extend(element.content)
                     continue
                 first_blocks[element.name] = element
